@@ -231,13 +231,6 @@ def expr_grammar(rng, nops=None, with_prec=True, unary=True):
     nops = nops or rng.randint(1, 5)
     ops = ["+", "*", "<", "^", "=", "?"][:nops]
     toks = ops + ["n", "(", ")"]
-    alts = [[('r', 'E'), ('t', o), ('r', 'E')] for o in ops]
-    if unary and rng.random() < 0.5:
-        prec = rng.choice(ops) if rng.random() < 0.6 else None
-        alts.append(([('t', ops[0]), ('r', 'E')], prec))
-    if rng.random() < 0.5:
-        alts.append([('t', '('), ('r', 'E'), ('t', ')')])
-    alts.append([('t', 'n')])
     precs = []
     if with_prec:
         pool = [o for o in ops if rng.random() < 0.8]
@@ -246,6 +239,15 @@ def expr_grammar(rng, nops=None, with_prec=True, unary=True):
             k = rng.randint(1, min(2, len(pool)))
             line, pool = pool[:k], pool[k:]
             precs.append((rng.choice(["left", "right", "nonassoc"]), line))
+    declared = [t for _, line in precs for t in line]
+    alts = [[('r', 'E'), ('t', o), ('r', 'E')] for o in ops]
+    if unary and rng.random() < 0.5:
+        # a %prec token must have a precedence attached (else the grammar is rejected)
+        prec = rng.choice(declared) if (declared and rng.random() < 0.6) else None
+        alts.append(([('t', ops[0]), ('r', 'E')], prec))
+    if rng.random() < 0.5:
+        alts.append([('t', '('), ('r', 'E'), ('t', ')')])
+    alts.append([('t', 'n')])
     # random %prec overrides on binary alternatives
     alts2 = []
     for a in alts:
